@@ -44,6 +44,22 @@ def large_cases(which):
         out.append({'A': A, 'B': None, 'a_names': None, 'b_names': None, 'q': q})
         q = {'type': 'select', 'items': [{'k': 'agg', 'fn': 'COUNT', 'sp': 'count', 'star': True, 'startext': '*'}, {'k': 'agg', 'fn': 'AVG', 'sp': 'AVG', 'e': _f('a', 1)}], 'group': [qgen.mk('NR % 400', None, 'int')], 'join': None, 'top': {'n': 399, 'form': 'LIMIT'}}
         out.append({'A': A, 'B': None, 'a_names': None, 'b_names': None, 'q': q})
+    elif which.startswith('aggenum'):
+        # every value sequence of length 1..3 over {-2, -1, 0, 1, 2} is one group (155 groups): extrema / sums / medians that pass through 0,
+        # repeated values, sign changes - as numeric strings, as ints, or as floats
+        import itertools
+        conv = {'aggenum': str, 'aggenum-int': int, 'aggenum-float': lambda v: v + 0.5}[which]
+        rows, g = [], 0
+        for n in (1, 2, 3):
+            for seq in itertools.product([-2, -1, 0, 1, 2], repeat=n):
+                g += 1
+                rows += [['g%03d' % g, conv(v)] for v in seq]
+        items = [{'k': 'expr', 'e': _f('a', 0)}] + [{'k': 'agg', 'fn': fn, 'sp': fn, 'e': _f('a', 1)} for fn in ('MIN', 'MAX', 'SUM', 'AVG', 'VARIANCE', 'MEDIAN')]
+        items.append({'k': 'agg', 'fn': 'COUNT', 'sp': 'COUNT', 'star': True, 'startext': '*'})
+        out.append({'A': rows, 'B': None, 'a_names': None, 'b_names': None, 'q': {'type': 'select', 'items': items, 'group': [_f('a', 0)], 'join': None}})
+        # the same groups interleaved (records of different groups alternate)
+        inter = sorted(rows, key=lambda r: (rows.index(r) % 3, r[0])) if False else [r for k in range(3) for i, r in enumerate(rows) if i % 3 == k]
+        out.append({'A': inter, 'B': None, 'a_names': None, 'b_names': None, 'q': {'type': 'select', 'items': items, 'group': [_f('a', 0)], 'join': None}})
     elif which == 'join':
         A2 = table(400)
         B = [['v%d' % (i % 40), 'b%d' % i] for i in range(900)]
